@@ -3,8 +3,8 @@
    stack maps, declared pointer bitmaps).  Collection, stack copying, preemption and write barriers are not modelled.
    Only statements, closed by `exact`, with Print Assumptions beneath each. *)
 From Coq Require Import NArith ZArith List String.
-From SV.Gen Require Import PtrMaps WbStores.
-From SV.Loader Require Import Pcdata StackMap PtrMapsProofs WbCoverage.
+From SV.Gen Require Import PtrMaps WbStores Frames.
+From SV.Loader Require Import Pcdata StackMap PtrMapsProofs WbCoverage FrameProofs FuncName.
 Import ListNotations.
 
 (* Pcdata.MarshalBinary followed by the runtime's pcvalue returns, at every covered pc, the value of the enclosing range -
@@ -82,3 +82,25 @@ Theorem C10_wb_coverage :
   param_sites_ok = true /\ helpers_ok = true.
 Proof. exact wb_coverage. Qed.
 Print Assumptions C10_wb_coverage.
+
+(* frame-pointer discipline of the three emitters (regenerated): SUBQ $size, SP; MOVQ BP, size-8(SP); LEAQ size-8(SP), BP ...
+   MOVQ size-8(SP), BP; ADDQ $size, SP; RET - what the frame-pointer unwinders of the profilers and the tracer rely on *)
+Theorem C10_frame_pointer_discipline :
+  ((fr_jitdec_offs + 8)%nat = fr_jitdec_size /\
+   jitdec_prologue = want_prologue fr_jitdec_size fr_jitdec_offs /\ jitdec_epilogue = want_epilogue fr_jitdec_size fr_jitdec_offs) /\
+  ((fr_encoder_offs + 8)%nat = fr_encoder_size /\
+   encoder_prologue = want_prologue fr_encoder_size fr_encoder_offs /\ encoder_epilogue = want_epilogue fr_encoder_size fr_encoder_offs) /\
+  ((fr_generic_offs + 8)%nat = fr_generic_size /\
+   generic_compile = (want_prologue fr_generic_size fr_generic_offs ++ want_epilogue fr_generic_size fr_generic_offs)%list).
+Proof. exact frame_pointer_discipline. Qed.
+Print Assumptions C10_frame_pointer_discipline.
+
+(* the function-name table: every name offset resolves (NUL-terminated read, as the runtime does) to the name written for
+   that function, brackets rewritten to [...] or not *)
+Theorem C10_funcname_tab_roundtrip : forall names,
+  Forall (fun n => ~ In 0%N (written n)) names ->
+  let '(tab, offs) := make_funcname_tab names in
+  List.length offs = List.length names /\
+  forall i, (i < List.length names)%nat -> resolve tab (nth i offs 0%nat) = written (nth i names []).
+Proof. exact funcname_tab_roundtrip. Qed.
+Print Assumptions C10_funcname_tab_roundtrip.
